@@ -22,6 +22,18 @@ CHECKS = {
    text="Every prefix length up to the bound, every single-bit corruption for small k and every serialisation point is enumerated on the real RevocationStore/Producer and compared with an independent BOLT-3 reference; the release rule (secret of exactly the next height, next point, newer commitment already durable) is checked on every revocation the API returns in every explored state.",
    note="SHA-256 trusted; indices above the tier bound covered by bit patterns only (the property concedes this).", ref="§4 C06"),
 }
+
+CHECKS.update({
+ "C09": dict(cat="exploration", engine="grid (in-harness)+evid",
+   technique="exhaustive boundary-lattice and small-domain enumeration of the real link policy check against a math/big reference of the property statement (differential, scenario-independent)",
+   text="Every comparison of the forwarding decision (fee incl. inbound fee/discount, no-loss, min/max HTLC, bandwidth, expiry too soon/too far, CLTV delta and range) is driven at threshold-1/threshold/threshold+1 for every point of a policy/config lattice plus exhaustive 6-bit sub-domains (3e7 quick / 3.5e8 thorough calls of the real CheckHtlcForward/CheckHtlcTransit on real channel links) and compared with the statement evaluated in unbounded integers; a rejection must name a violated rule.",
+   note="Exact-arithmetic equality is claimed on the realistic domain (height <= 2^31, deltas <= 2^16, amounts <= 10 BTC, rates <= 100%); cases beyond it are enumerated and their disagreements listed in the evidence; bandwidth from four channel states; inbound-fee plumbing in the switch is C08.", ref="§4 C09"),
+ "C11": dict(cat="exploration", engine="bytemut (in-harness)+evid",
+   technique="explicit enumeration on the real brontide Machine/Conn/Dial/Listener with scenario-independent oracles (a frame or act is accepted only if byte-identical to the genuine next one; delivered equals sent; exact flush accounting; pairwise-distinct ciphertexts), 3x determinism gate, JSON case replay",
+   text="Exhaustive bounded enumeration of handshake key triples, every single-byte corruption/truncation/splice/replay/reflection of acts and transport frames, every accept-k-then-timeout write pattern around rotation boundaries, and long bidirectional message streams across 3-6 key rotations on the real implementation.",
+   note="Fixed key material; byte-level neighbourhoods rather than all strings; only the first read of tampered data is judged; nonce uniqueness observed black-box via ciphertext distinctness of identical plaintexts.", ref="§4 C11"),
+})
+
 NOT_YET = "harness not built yet in this round (planned, see DESIGN.md §4)"
 
 def main():
